@@ -15,14 +15,21 @@ Print Assumptions C10_spec_highest_then_earliest.
 
 (* they never return a task that was removed or already popped; len counts distinct live tasks *)
 Theorem C10_spec_pop_returns_live : forall s d s' t,
-  spec_step s (Pop d) = (s', OTask t) -> s_mem s t = true /\ s_mem s' t = false.
+  spec_step s (Pop d) = (s', OTask t) ->
+  (s_mem s t = true /\ s_mem s' t = false /\ s' = s_del s t) \/ (s = [] /\ s' = [] /\ d = Some (DTask t)).
 Proof. exact pop_returns_live. Qed.
 Print Assumptions C10_spec_pop_returns_live.
 
 Theorem C10_spec_peek_returns_live : forall s d s' t,
-  spec_step s (Peek d) = (s', OTask t) -> s' = s /\ s_mem s t = true.
+  spec_step s (Peek d) = (s', OTask t) ->
+  s' = s /\ (s_mem s t = true \/ (s = [] /\ d = Some (DTask t))).
 Proof. exact peek_returns_live. Qed.
 Print Assumptions C10_spec_peek_returns_live.
+
+Theorem C10_spec_pop_default_only_when_empty : forall s d s' v,
+  spec_step s (Pop d) = (s', ODefault v) -> s = [] /\ s' = [].
+Proof. exact pop_default_only_when_empty. Qed.
+Print Assumptions C10_spec_pop_default_only_when_empty.
 
 Theorem C10_spec_remove_makes_dead : forall s t s' o,
   spec_step s (Remove t) = (s', o) -> s_mem s' t = false.
@@ -36,9 +43,11 @@ Print Assumptions C10_spec_tasks_unique.
 
 Example C10_spec_example :
   spec_run [] [Add 1 (Some 5%Z); Add 2 (Some 5%Z); Add 3 (Some 7%Z); Add 4 None; Remove 3; Peek None; Pop None;
-               Add 1 (Some 5%Z); Len; Pop None; Pop None; Pop None; Pop (Some 9); Pop None; Remove 1]
+               Add 1 (Some 5%Z); Len; Pop None; Pop None; Pop None; Pop (Some (DOther 9)); Pop None; Remove 1;
+               Add 7 None; Add 8 None; Pop (Some (DTask 7)); Len; Pop (Some (DTask 7)); Pop (Some (DTask 7)); Len]
   = [ONone; ONone; ONone; ONone; ONone; OTask 1; OTask 1; ONone; OLen 3; OTask 2; OTask 1; OTask 4;
-     ODefault 9; OErr IndexError; OErr KeyError].
+     ODefault 9; OErr IndexError; OErr KeyError;
+     ONone; ONone; OTask 7; OLen 1; OTask 8; OTask 7; OLen 0].
 Proof. vm_compute. reflexivity. Qed.
 
 (* ---- both queue classes refine the reference, for all histories ---------------- *)
